@@ -2,7 +2,7 @@
 from facts import AnalysisBroken
 from model import (dstr, strip, fact_holds, mentions_field, mentions_call, mentions_var,
                    mentions_enum, const_value, walk)
-from rules import (guarded, calls_to, field_writes, who_may_write, who_may_call, full_range,
+from rules import (flush_succeeded_at, guarded, calls_to, field_writes, who_may_write, who_may_call, full_range,
                    loops_over, every_iteration_passes, basename, origins, is_var, is_enum,
                    lastname, dominated_by, must_pass, reached_only_via, skip_conditions_exact, deep_resolve)
 from props.scan_common import check_cc, ts_comparisons, true_succ, check_active_edges
@@ -252,7 +252,7 @@ def run(ctx):
             fl = list(f.calls('fflush'))
             for e in f.events('call'):
                 if e.get('name') in mem:
-                    ctx.check('C07.O3', any(f.dominates_ev(x, e) for x in fl), f.name, 'memory-before-flush', f.where(e),
+                    ctx.check('C07.O3', any(f.dominates_ev(x, e) for x in fl) or flush_succeeded_at(f, e), f.name, 'memory-before-flush', f.where(e),
                               '%s updates memory only after the record was flushed' % name)
     fc = prog.fn('Builder::FinishCommand')
     ef_ = list(fc.calls('Plan::EdgeFinished'))
